@@ -1,13 +1,130 @@
-(* wfdoc (spec side): `<mode> <document>` -> verdict of Spec.XmlWF (XML 1.0 / XML 1.0 + Namespaces)
-   `wf` | `notwf:<reason code>` | `unsupported`, as `x10=<v> ns=<v>` *)
+(* wfdoc (spec side).  Case lines:
+     v <document>        -> `x10=<verdict> ns=<verdict>`   (Spec.XmlWF: XML 1.0 / + Namespaces;
+                            verdict = wf | notwf:<reason code> | unsupported)
+     d <document>        -> the same, then ` I <infoset dump>` (Spec.Infoset.infoset_of_string; `I -`
+                            when the text denotes no infoset)
+     g <seed1> <seed2> <abstract document>
+                         -> `valid=<0|1> r1=<rendering 1> r2=<rendering 2> w1=<0|1> w2=<0|1> i1=<0|1> i2=<0|1> D <dump of denote>`
+                            rendering i = Spec.Infoset.render d (seeded seed_i); w = Spec.XmlWF.wf of
+                            it; i = infoset_of_string of it equals denote d (self-consistency of the spec)
+   The dump format is the one of harness/src/domains/wfdoc.rs.  The abstract document is a
+   prefix-notation token stream (see tools/gen/wfgen.py: `serialise`). *)
 let show_verdict v = match v with
   | WF -> "wf"
   | NotWF r -> "notwf:" ^ string_of_int (int_of_n (reason_code r))
   | Unsupported -> "unsupported"
 
+let o = function None -> "~" | Some s -> enc s
+let tok_string (t : token) : string = match t with
+  | TDoc (v, e, sa) -> Printf.sprintf "D:%s:%s:%s" (o v) (o e) (match sa with None -> "~" | Some true -> "y" | Some false -> "n")
+  | TComment s -> "c:" ^ enc s
+  | TPI (t, d) -> Printf.sprintf "p:%s:%s" (enc t) (enc d)
+  | TDoctype (n, p, s) -> Printf.sprintf "T:%s:%s:%s" (enc n) (o p) (o s)
+  | TNotation (n, p, s) -> Printf.sprintf "n:%s:%s:%s" (enc n) (o p) (o s)
+  | TUnparsed (n, p, s, nt) -> Printf.sprintf "u:%s:%s:%s:%s" (enc n) (o p) (enc s) (enc nt)
+  | TEndDoctype -> "/T"
+  | TElem n -> "E:" ^ enc n
+  | TAttr (sp, n, v) -> Printf.sprintf "%s:%s:%s" (if sp then "a" else "b") (enc n) (enc v)
+  | TEndElem -> "/E"
+  | TText s -> "t:" ^ enc s
+  | TUnexp n -> "x:" ^ enc n
+let dump (l : token list) : string = String.concat " " (List.map tok_string l)
+
+(* ---- reader of the serialised abstract document ---- *)
+exception Bad of string
+let rd_doc (words : string list) : adoc =
+  let a = Array.of_list words in
+  let pos = ref 0 in
+  let next () = if !pos >= Array.length a then raise (Bad "eof") else (let w = a.(!pos) in incr pos; w) in
+  let str () = dec (next ()) in
+  let ostr () = let w = next () in if w = "~" then None else Some (dec w) in
+  let num () = int_of_string (next ()) in
+  let rec many n f = if n <= 0 then [] else (let x = f () in x :: many (n - 1) f) in
+  let item () = match next () with
+    | "T" -> IText (str ()) | "R" -> IRef (str ()) | w -> raise (Bad ("item " ^ w)) in
+  let items () = let n = num () in many n item in
+  let rec node () = match next () with
+    | "t" -> AText (str ())
+    | "r" -> ARef (str ())
+    | "c" -> AComment (str ())
+    | "p" -> let t = str () in let d = ostr () in API (t, d)
+    | "e" -> let nm = str () in
+             let na = num () in
+             let atts = many na (fun () -> let n = str () in let v = items () in (n, v)) in
+             let nk = num () in
+             let kids = many nk node in
+             AElem (nm, atts, kids)
+    | w -> raise (Bad ("node " ^ w)) in
+  let nodes () = let n = num () in many n node in
+  let occ () = match next () with "1" -> OOne | "?" -> OOpt | "*" -> OStar | "+" -> OPlus | w -> raise (Bad ("occ " ^ w)) in
+  let rec cp () = match next () with
+    | "n" -> let nm = str () in let oc = occ () in CPName (nm, oc)
+    | "c" -> let oc = occ () in let n = num () in let l = many n cp in CPChoice (l, oc)
+    | "s" -> let oc = occ () in let n = num () in let l = many n cp in CPSeq (l, oc)
+    | w -> raise (Bad ("cp " ^ w)) in
+  let atype () = match next () with
+    | "cdata" -> ATCData | "id" -> ATId | "idref" -> ATIdRef | "idrefs" -> ATIdRefs
+    | "entity" -> ATEntity | "entities" -> ATEntities | "nmtoken" -> ATNmtoken | "nmtokens" -> ATNmtokens
+    | "notation" -> let n = num () in ATNotation (many n str)
+    | "enum" -> let n = num () in ATEnum (many n str)
+    | w -> raise (Bad ("type " ^ w)) in
+  let adefault () = match next () with
+    | "req" -> DfRequired | "imp" -> DfImplied
+    | "val" -> let f = next () = "1" in let v = items () in DfValue (f, v)
+    | w -> raise (Bad ("default " ^ w)) in
+  let decl () = match next () with
+    | "E" -> let nm = str () in let v = items () in ADEntity (nm, v)
+    | "X" -> let nm = str () in let p = ostr () in let s = str () in let nd = ostr () in ADExtEntity (nm, p, s, nd)
+    | "N" -> let nm = str () in let p = ostr () in let s = ostr () in ADNotation (nm, p, s)
+    | "A" -> let el = str () in let n = num () in
+             ADAttlist (el, many n (fun () -> let nm = str () in let ty = atype () in let df = adefault () in ((nm, ty), df)))
+    | "L" -> let nm = str () in
+             let spec = (match next () with
+               | "empty" -> CSEmpty | "any" -> CSAny
+               | "mixed" -> let n = num () in CSMixed (many n str)
+               | "children" -> CSChildren (cp ())
+               | w -> raise (Bad ("spec " ^ w))) in
+             ADElement (nm, spec)
+    | "C" -> ADComment (str ())
+    | "P" -> let t = str () in let d = ostr () in ADPI (t, d)
+    | w -> raise (Bad ("decl " ^ w)) in
+  (match next () with "X" -> () | w -> raise (Bad ("doc " ^ w)));
+  let ver = ostr () in
+  let en = ostr () in
+  let sa = (match next () with "~" -> None | "y" -> Some true | _ -> Some false) in
+  let m1 = nodes () in
+  let dt = (match next () with
+    | "~" -> None
+    | "T" -> let nm = str () in let p = ostr () in let s = ostr () in
+             let sub = (match next () with "~" -> None | w -> let n = int_of_string w in Some (many n decl)) in
+             Some { ad_name = nm; ad_pub = p; ad_sys = s; ad_subset = sub }
+    | w -> raise (Bad ("doctype " ^ w))) in
+  let m2 = nodes () in
+  let root = node () in
+  let m3 = nodes () in
+  { a_version = ver; a_encoding = en; a_standalone = sa; a_misc1 = m1; a_doctype = dt; a_misc2 = m2;
+    a_root = root; a_misc3 = m3 }
+
+let seed_of (w : string) : n list = List.map (fun x -> n_of_int (int_of_string x)) (String.split_on_char ',' w)
+let b x = if x then "1" else "0"
+
 let () = register "wfdoc" (fun words ->
   match words with
-  | [_mode; doc] ->
+  | ["v"; doc] ->
     let s = dec doc in
     Printf.sprintf "x10=%s ns=%s" (show_verdict (verdict10 s)) (show_verdict (verdict_ns s))
+  | ["d"; doc] ->
+    let s = dec doc in
+    Printf.sprintf "x10=%s ns=%s I %s" (show_verdict (verdict10 s)) (show_verdict (verdict_ns s))
+      (match infoset_of_string s with Some l -> dump l | None -> "-")
+  | "g" :: s1 :: s2 :: rest ->
+    (try
+       let d = rd_doc rest in
+       let r1 = render d (seeded (seed_of s1)) and r2 = render d (seeded (seed_of s2)) in
+       let den = denote d in
+       let wfb r = (match verdict_ns r with WF -> true | _ -> false) in
+       let same r = (match infoset_of_string r with Some l -> l = den | None -> false) in
+       Printf.sprintf "valid=%s r1=%s r2=%s w1=%s w2=%s i1=%s i2=%s D %s" (b (valid d)) (enc r1) (enc r2)
+         (b (wfb r1)) (b (wfb r2)) (b (same r1)) (b (same r2)) (dump den)
+     with Bad m -> "badinput " ^ m | Failure m -> "badinput " ^ m)
   | _ -> "badinput")
